@@ -378,7 +378,7 @@ class ConfigLoader(BaseConfig):
                             j.d = d
             elif isinstance(decay_d, dict):
                 for i in amp.decay_group:
-                    for d, j in zip(decay_d, i):
+                    for j in i:
                         if j.core.name in decay_d:
                             d = decay_d.get(j.core.name)
                             if hasattr(j.core, "d"):
